@@ -55,7 +55,17 @@ impl MqttSink {
         } else {
             self.0.wait_readiness().map_or_else(
                 || Either::Left(ready(true)),
-                |rx| Either::Right(async move { rx.await.is_ok() }),
+                |rx| {
+                    let shared = self.0.clone();
+                    Either::Right(async move {
+                        let result = shared.wait_ready(rx).await.is_ok();
+                        if result {
+                            // readiness check does not occupy a slot
+                            shared.wake_waiter();
+                        }
+                        result
+                    })
+                },
             )
         }
     }
@@ -240,9 +250,7 @@ impl PublishBuilder {
             // handle client receive maximum
             if let Some(rx) = self.shared.wait_readiness() {
                 Either::Left(Either::Left(async move {
-                    if rx.await.is_err() {
-                        return Err(SendPacketError::Disconnected);
-                    }
+                    self.shared.wait_ready(rx).await?;
                     self.send_at_least_once_inner(payload).await
                 }))
             } else {
@@ -311,9 +319,7 @@ impl PublishBuilder {
             // handle client receive maximum
             if let Some(rx) = self.shared.wait_readiness() {
                 Either::Left(Either::Left(async move {
-                    if rx.await.is_err() {
-                        return Err(SendPacketError::Disconnected);
-                    }
+                    self.shared.wait_ready(rx).await?;
                     self.send_exactly_once_inner(payload).await
                 }))
             } else {
@@ -363,9 +369,7 @@ impl PublishBuilder {
             // handle client receive maximum
             let fut = if let Some(rx) = self.shared.wait_readiness() {
                 Either::Left(Either::Left(async move {
-                    if rx.await.is_err() {
-                        return Err(SendPacketError::Disconnected);
-                    }
+                    self.shared.wait_ready(rx).await?;
                     self.stream_at_least_once_inner(tx).await
                 }))
             } else {
@@ -479,10 +483,8 @@ impl SubscribeBuilder {
             Err(SendPacketError::Disconnected)
         } else {
             // handle client receive maximum
-            if let Some(rx) = self.shared.wait_readiness()
-                && rx.await.is_err()
-            {
-                return Err(SendPacketError::Disconnected);
+            if let Some(rx) = self.shared.wait_readiness() {
+                self.shared.wait_ready(rx).await?;
             }
             let idx = self.id.unwrap_or_else(|| self.shared.next_id());
             let rx = self.shared.wait_response(idx, AckType::Subscribe)?;
@@ -564,10 +566,8 @@ impl UnsubscribeBuilder {
             Err(SendPacketError::Disconnected)
         } else {
             // handle client receive maximum
-            if let Some(rx) = shared.wait_readiness()
-                && rx.await.is_err()
-            {
-                return Err(SendPacketError::Disconnected);
+            if let Some(rx) = shared.wait_readiness() {
+                shared.wait_ready(rx).await?;
             }
             // allocate packet id
             let idx = self.id.unwrap_or_else(|| shared.next_id());
